@@ -217,6 +217,17 @@ func runC02(c *core.Case) *core.Result {
 	if sig, msg := compareWithReference(c, h); sig != "" {
 		return c.Violation(sh.typ+":"+sig, "%s", msg)
 	}
+	if c.Rng.Intn(2) == 0 {
+		// equal-clock burst at this quiescent point: one operation per replica at the same place
+		ops := g.Burst(h.Reps)
+		c.Step("burst at equal clocks: %s", crdt.JS(ops))
+		for i, op := range ops {
+			if _, _, sig, msg := h.Local(h.Reps[i], op); sig != "" {
+				return c.Violation(sh.typ+":"+sig, "%s", msg)
+			}
+		}
+		c.Count("equal_clock_bursts", 1)
+	}
 	// continue and compare again
 	if sig, msg := randomPhase(c, h, sh.steps/3, &q); sig != "" {
 		return c.Violation(sh.typ+":"+sig, "%s", msg)
